@@ -135,10 +135,13 @@ def special_groups(tab: dict[str, Any], thorough: bool = False) -> list[dict[str
 
 
 # ------------------------------------------------------------------------------------------ equivalence oracle
+_HARNESS_SET: set[str] = set()
+
+
 def _strip(d: Any, extra: set[str] = frozenset()) -> Any:  # type: ignore[assignment]
     if not isinstance(d, dict):
         return d
-    return {k: v for k, v in d.items() if k not in plan.BOOKKEEPING and k not in extra}
+    return {k: v for k, v in d.items() if k not in plan.BOOKKEEPING and k not in extra and k not in _HARNESS_SET}
 
 
 def _val(diff: Any, base: Any, key: str) -> Any:
@@ -157,6 +160,17 @@ def _rejected(err: str) -> str | None:
         if pat in err:
             return name
     return None
+
+
+VOLATILE_OUTPUT = {"dump_type_stats", "dump_inference_stats", "dump_build_stats", "verbosity"}  # print timings / memory / counters
+_MSG = __import__("re").compile(r"^(?:[^\s:][^:]*:\d+(?::\d+)*: (?:error|note|warning): |Found \d+ error|Success: )")
+
+
+def _diag(o: dict[str, Any], dest: str) -> Any:
+    out = o.get("out") or ""
+    if dest in VOLATILE_OUTPUT:
+        out = "\n".join(ln for ln in out.splitlines() if _MSG.match(ln))
+    return [o.get("status"), out]
 
 
 def _family(p: dict[str, Any]) -> str:
@@ -192,6 +206,10 @@ def report(ctx: common.Ctx, key: str, what: str, wit: dict[str, Any]) -> None:
 
 def judge_group(ctx: common.Ctx, g: dict[str, Any], res: dict[str, Any]) -> None:
     dest = g["dest"]
+    # the harness points builds at a private cache through MYPY_CACHE_DIR (not for the cache_dir option itself)
+    _HARNESS_SET.clear()
+    if dest != "cache_dir":
+        _HARNESS_SET.add("cache_dir")
     plans = {r["id"]: r for r in g["runs"]}
     obs = {o["id"]: o for o in res["runs"]}
     base = obs.get("baseline")
@@ -310,7 +328,19 @@ def judge_group(ctx: common.Ctx, g: dict[str, Any], res: dict[str, Any]) -> None
                     how = "leaked"
                 else:
                     how = "lost"
-                vkey = f"equiv:value-{how}:{dest}:{_family(p)}"
+                fam = _family(p)
+                if "~" in p["spelling"] and how != "split-into-characters":
+                    plain_failed = any(bads.get(i) and plans[i]["vid"] == p["vid"] and _family(plans[i]) == fam and "~" not in plans[i]["spelling"]
+                                       for i in plans if i != "baseline")
+                    first_alt = min(i for i in plans if i != "baseline" and plans[i]["vid"] == p["vid"] and _family(plans[i]) == fam
+                                    and "~" in plans[i]["spelling"] and bads.get(i))
+                    has_plain = any(plans[i]["vid"] == p["vid"] and _family(plans[i]) == fam and "~" not in plans[i]["spelling"]
+                                    for i in plans if i != "baseline")
+                    if has_plain and not plain_failed:
+                        fam += "~" + p["spelling"].split("~", 1)[1]
+                    elif not has_plain and rid != first_alt and bads[first_alt][0][2] != bad[0][2]:
+                        fam += "~" + p["spelling"].split("~", 1)[1]
+                vkey = f"equiv:value-{how}:{dest}:{fam}"
                 what = f"{dest} supplied via {src} ({p['spelling']}): expected {key}={want!r} in {where} options, observed {got!r}"
             report(ctx, vkey, what, witness("baseline", rid))
             usable.pop(rid, None)
@@ -320,7 +350,7 @@ def judge_group(ctx: common.Ctx, g: dict[str, Any], res: dict[str, Any]) -> None
             ctx.nontriv("conflict", dest, src, p["vid"])
         elif changed:
             ctx.nontriv("equiv", dest, p["vid"], src, sk)
-        if o.get("built") and base.get("built") and (o.get("out") != base.get("out") or o.get("status") != base.get("status")):
+        if o.get("built") and base.get("built") and _diag(o, dest) != _diag(base, dest):
             diag_sensitive = True
     # ---- (b) sources agree with each other (snapshots and witness diagnostics)
     parts: dict[tuple[str, str], list[str]] = {}
@@ -359,7 +389,7 @@ def judge_group(ctx: common.Ctx, g: dict[str, Any], res: dict[str, Any]) -> None
                               f"{dest}={vid}: per-module Options (after inline configuration) differ between {pa['src']} and "
                               f"{pb['src']} in {keys}", witness("baseline", ref, rid))
                 continue
-            if a.get("built") and b.get("built") and (a.get("out") != b.get("out") or a.get("status") != b.get("status")):
+            if a.get("built") and b.get("built") and _diag(a, dest) != _diag(b, dest):
                 report(ctx, f"equiv:diagnostics-differ:{dest}:{pair}",
                               f"{dest}={vid}: witness diagnostics differ between {pa['src']} ({pa['spelling']}) and {pb['src']} "
                               f"({pb['spelling']})", witness("baseline", ref, rid))
@@ -407,6 +437,10 @@ def equiv_tasks(ctx: common.Ctx, tab: dict[str, Any], scale: float) -> Iterator[
     thorough = ctx.tier == "thorough"
     entries = [e for _, e in sorted(tab["entries"].items())]
     groups = special_groups(tab, thorough)
+    # quick tier: complete builds under non-default *global* options (one cold typeshed build each) for a seeded sample
+    names = sorted(e["dest"] for e in entries)
+    full = set(common.rng_for("C17", "full-build-sample").sample(names, min(len(names), 14))) | {"disallow_untyped_defs", "follow_imports"}
+    ctx.extra["quick_tier_full_build_sample"] = sorted(full) if not thorough else "all"
     for e in entries:
         if e["dest"] in ("config_file",) or e.get("special") and e["dest"] not in ("python_version", "python_executable"):
             d = e["dest"]
@@ -419,7 +453,7 @@ def equiv_tasks(ctx: common.Ctx, tab: dict[str, Any], scale: float) -> Iterator[
         if not e.get("has_attr") and not e.get("documented") and e["dest"] not in ("python_version", "python_executable"):
             ctx.extra.setdefault("not_judged", {})[f"{e['dest']}: not an Options attribute"] = 1
             continue
-        groups.append(plan.plan_group(e, tab, common.rng_for("C17", "plan", e["dest"]), thorough))
+        groups.append(plan.plan_group(e, tab, common.rng_for("C17", "plan", e["dest"]), thorough, thorough or e["dest"] in full))
     rng = common.rng_for("C17", "order")
     rng.shuffle(groups)
     # heavy groups first (cache-affecting options trigger one cold typeshed build per non-default value)
